@@ -1211,6 +1211,51 @@ def tr_mu_fisher(fdef):
     return txt
 
 
+# ------------------------------------------------------------------ num_outcomes(schedule_index) of the four tomography classes
+def tr_num_outcomes(cls, coq_name):
+    f = find_def(cls, "num_outcomes")
+    if argnames(f) != ["self", "schedule_index"]:
+        fail(f, "unexpected parameters")
+    env = {"schedule_index": "schedule_index"}
+
+    def ex(e):
+        if isinstance(e, ast.Name) and e.id in env:
+            return env[e.id]
+        if is_self_attr(e, "_num_outcomes"):
+            return "num_outcomes"
+        if isinstance(e, ast.BinOp) and isinstance(e.op, ast.Mult):
+            return "(%s * %s)" % (ex(e.left), ex(e.right))
+        # self._experiment.schedules[<i>][<K>][1]
+        if (isinstance(e, ast.Subscript) and is_const(e.slice, 1) and isinstance(e.value, ast.Subscript) and isinstance(e.value.slice, ast.Constant)
+                and type(e.value.slice.value) is int and 0 <= e.value.slice.value <= 3 and isinstance(e.value.value, ast.Subscript)
+                and isinstance(e.value.value.value, ast.Attribute) and e.value.value.value.attr == "schedules"
+                and is_self_attr(e.value.value.value.value, "_experiment")):
+            return "(nth %d (sched %s) 0)" % (e.value.slice.value, ex(e.value.value.slice))
+        # len(self._experiment._povms[<i>].vecs)   /   len(self._experiment.povms[<i>].vecs)
+        if (isinstance(e, ast.Call) and is_name(e.func, "len") and len(e.args) == 1 and isinstance(e.args[0], ast.Attribute) and e.args[0].attr == "vecs"
+                and isinstance(e.args[0].value, ast.Subscript) and isinstance(e.args[0].value.value, ast.Attribute)
+                and e.args[0].value.value.attr in ("_povms", "povms") and is_self_attr(e.args[0].value.value.value, "_experiment")):
+            return "(povm_len %s)" % ex(e.args[0].value.slice)
+        fail(e, "unsupported expression in num_outcomes")
+    res = None
+    for st in body_wo_doc(f):
+        if isinstance(st, ast.Assert):
+            t = st.test          # the two range assertions on schedule_index (precondition j < num_schedules)
+            ok = (isinstance(t, ast.Compare) and len(t.ops) == 1 and is_name(t.left, "schedule_index")
+                  and ((isinstance(t.ops[0], ast.GtE) and is_const(t.comparators[0], 0)) or (isinstance(t.ops[0], ast.Lt) and is_self_attr(t.comparators[0], "num_schedules"))))
+            if not ok:
+                fail(st, "unsupported assertion")
+        elif isinstance(st, ast.Assign) and len(st.targets) == 1 and isinstance(st.targets[0], ast.Name):
+            env[st.targets[0].id] = ex(st.value)
+        elif isinstance(st, ast.Return):
+            res = ex(st.value)
+        else:
+            fail(st, "unsupported statement in num_outcomes")
+    if res is None:
+        fail(f, "no return")
+    return ("Definition %s (sched : nat -> list nat) (povm_len : nat -> nat) (num_outcomes schedule_index : nat) : nat := %s.\n" % (coq_name, res)).replace("\\n", "\n")
+
+
 def main(repo, out):
     def parse(rel):
         return ast.parse(open(os.path.join(repo, rel), encoding="utf-8").read())
@@ -1231,6 +1276,10 @@ def main(repo, out):
     parts.append(tr_tomo(find_class(tq, "StandardQTomography")))
     parts.append(tr_povmt_matS(find_class(tp, "StandardPovmt")))
     parts.append(tr_qmpt_matS(find_class(tm, "StandardQmpt")))
+    c_qst = find_class(parse("quara/protocol/qtomography/standard/standard_qst.py"), "StandardQst")
+    c_qpt = find_class(parse("quara/protocol/qtomography/standard/standard_qpt.py"), "StandardQpt")
+    parts.append(tr_num_outcomes(c_qst, "gen_qst_num_outcomes") + tr_num_outcomes(find_class(tp, "StandardPovmt"), "gen_povmt_num_outcomes")
+                 + tr_num_outcomes(c_qpt, "gen_qpt_num_outcomes") + tr_num_outcomes(find_class(tm, "StandardQmpt"), "gen_qmpt_num_outcomes"))
     da = parse("quara/data_analysis/data_analysis.py")
     parts.append(tr_cov_mats(mu, da))
     parts.append(tr_sample_stats(mu, da))
